@@ -119,6 +119,9 @@ class FiltersSet:
             ":create": "mailbox",
             ":flags": "imap4flags",
             ":seconds": "vacation-seconds",
+            ":count": "relational",
+            ":value": "relational",
+            ":regex": "regex",
         }
         if isinstance(arg, str) and arg in args_using_extensions:
             self.require(args_using_extensions[arg])
@@ -176,7 +179,8 @@ class FiltersSet:
         if tag is None:
             tag = condition[1]
         cmd = commands.get_command_instance("header", parent)
-        cmd.check_next_arg("tag", tag)
+        self.check_if_arg_is_extension(tag)
+        cmd.check_next_arg("tag", tag, check_extension=False)
         if isinstance(condition[0], list):
             cmd.check_next_arg(
                 "stringlist", [self.__quote_if_necessary(c) for c in condition[0]]
@@ -248,7 +252,8 @@ class FiltersSet:
                     negate = True
                 else:
                     comp_tag = c[1]
-                cmd.check_next_arg("tag", comp_tag)
+                self.check_if_arg_is_extension(comp_tag)
+                cmd.check_next_arg("tag", comp_tag, check_extension=False)
                 cmd.check_next_arg("stringlist", self.__quote_list(c[2]))
                 cmd.check_next_arg("stringlist", self.__quote_list(c[3]))
             elif cname == "address":
@@ -258,7 +263,8 @@ class FiltersSet:
                     negate = True
                 else:
                     comp_tag = c[1]
-                cmd.check_next_arg("tag", comp_tag)
+                self.check_if_arg_is_extension(comp_tag)
+                cmd.check_next_arg("tag", comp_tag, check_extension=False)
                 for arg in c[2:]:
                     if isinstance(arg, str):
                         finalarg = self.__quote_if_necessary(arg)
@@ -275,7 +281,8 @@ class FiltersSet:
                     negate = True
                 else:
                     comp_tag = c[2]
-                cmd.check_next_arg("tag", comp_tag)
+                self.check_if_arg_is_extension(comp_tag)
+                cmd.check_next_arg("tag", comp_tag, check_extension=False)
                 cmd.check_next_arg("stringlist", self.__quote_list(c[3:]))
             elif cname == "currentdate":
                 cmd = commands.get_command_instance("currentdate", ifcontrol, False)
